@@ -31,11 +31,11 @@ Definition p_sig (P : pipeline) : nat := fst (p_id P).
 (* pipelines.Config is a Go map keyed by pipeline.ID: keys are unique (hypothesis [wf_config] of
    the theorems); conns = the connector builder's configured ids, each with its factory's
    supported (exporter-signal, receiver-signal) pairs (connectorStability <> Undefined). *)
-Record config := mkC { pipes : list pipeline; conns : list (cid * list (nat * nat)) }.
+Record config := mkC { pipes : list pipeline; conns : list (cid * (bool * list (nat * nat))) }.
 
 Definition memn (k : nat) (l : list nat) : bool := existsb (Nat.eqb k) l.
 
-Fixpoint lookup_conn (k : cid) (l : list (cid * list (nat * nat))) : option (list (nat * nat)) :=
+Fixpoint lookup_conn (k : cid) (l : list (cid * (bool * list (nat * nat)))) : option (bool * list (nat * nat)) :=
   match l with
   | [] => None
   | (k', m) :: r => if Nat.eqb k k' then Some m else lookup_conn k r
@@ -45,10 +45,13 @@ Fixpoint lookup_conn (k : cid) (l : list (cid * list (nat * nat))) : option (lis
 Definition is_conn (c : config) (k : cid) : bool :=
   match lookup_conn k (conns c) with Some _ => true | None => false end.
 
-(* connectorStability(factory, expType, recType) != StabilityLevelUndefined *)
+(* connectorStability(factory, expType, recType) != StabilityLevelUndefined: the factory's own answer
+   for the pair; a pair that involves profiles (signal 3) additionally needs the factory to be an
+   xconnector.Factory (type assertion), a pair among traces/metrics/logs does not. *)
 Definition supported (c : config) (k : cid) (E R : nat) : bool :=
   match lookup_conn k (conns c) with
-  | Some m => existsb (fun p => Nat.eqb (fst p) E && Nat.eqb (snd p) R) m
+  | Some (x, m) => existsb (fun p => Nat.eqb (fst p) E && Nat.eqb (snd p) R) m
+                   && (x || (Nat.ltb E 3 && Nat.ltb R 3))
   | None => false
   end.
 
